@@ -8,8 +8,8 @@ Record cell := { cnt : nat; val : list N }.
 Definition env_t := list (var * handle).
 Record st := { env : env_t; heap : handle -> option cell; next : handle }.
 
-Inductive op := New (x:var) | Clone (x y:var) (* let y = x.clone() *) | Add (x:var) (v:N) | Read (x:var).
-Inductive out := ONone | OVal (l:list N) | OPanic.
+Inductive op := HNew (x:var) | HClone (x y:var) (* let y = x.clone() *) | HAdd (x:var) (v:N) | HRead (x:var).
+Inductive out := HNone | HVal (l:list N) | HPanic.
 
 Fixpoint lookup {A} (x:nat) (e:list (nat * A)) : option A :=
   match e with [] => None | (k,v) :: r => if Nat.eqb k x then Some v else lookup x r end.
@@ -20,31 +20,31 @@ Definition upd {A} (f:nat -> option A) (k:nat) (a:option A) : nat -> option A :=
 (* cow = true : Arc::make_mut (copy when shared);  cow = false : Arc::get_mut(..).unwrap() (panic when shared) *)
 Definition step (cow:bool) (s:st) (o:op) : st * out :=
   match o with
-  | New x => ({| env := set_key x (next s) (env s); heap := upd (heap s) (next s) (Some {| cnt := 1; val := [] |}); next := S (next s) |}, ONone)
-  | Clone x y =>
+  | HNew x => ({| env := set_key x (next s) (env s); heap := upd (heap s) (next s) (Some {| cnt := 1; val := [] |}); next := S (next s) |}, HNone)
+  | HClone x y =>
       match lookup x (env s) with
       | Some h => match heap s h with
-                  | Some c => ({| env := set_key y h (env s); heap := upd (heap s) h (Some {| cnt := S (cnt c); val := val c |}); next := next s |}, ONone)
-                  | None => (s, OPanic) end
-      | None => (s, OPanic)
+                  | Some c => ({| env := set_key y h (env s); heap := upd (heap s) h (Some {| cnt := S (cnt c); val := val c |}); next := next s |}, HNone)
+                  | None => (s, HPanic) end
+      | None => (s, HPanic)
       end
-  | Add x v =>
+  | HAdd x v =>
       match lookup x (env s) with
       | Some h => match heap s h with
                   | Some c =>
-                      if Nat.eqb (cnt c) 1 then ({| env := env s; heap := upd (heap s) h (Some {| cnt := 1; val := val c ++ [v] |}); next := next s |}, ONone)
+                      if Nat.eqb (cnt c) 1 then ({| env := env s; heap := upd (heap s) h (Some {| cnt := 1; val := val c ++ [v] |}); next := next s |}, HNone)
                       else if cow then
                         ({| env := set_key x (next s) (env s);
                             heap := upd (upd (heap s) h (Some {| cnt := pred (cnt c); val := val c |})) (next s) (Some {| cnt := 1; val := val c ++ [v] |});
-                            next := S (next s) |}, ONone)
-                      else (s, OPanic)
-                  | None => (s, OPanic) end
-      | None => (s, OPanic)
+                            next := S (next s) |}, HNone)
+                      else (s, HPanic)
+                  | None => (s, HPanic) end
+      | None => (s, HPanic)
       end
-  | Read x =>
+  | HRead x =>
       match lookup x (env s) with
-      | Some h => match heap s h with Some c => (s, OVal (val c)) | None => (s, OPanic) end
-      | None => (s, OPanic)
+      | Some h => match heap s h with Some c => (s, HVal (val c)) | None => (s, HPanic) end
+      | None => (s, HPanic)
       end
   end.
 
@@ -52,16 +52,16 @@ Definition step (cow:bool) (s:st) (o:op) : st * out :=
 Definition pst := list (var * list N).
 Definition pstep (p:pst) (o:op) : pst * out :=
   match o with
-  | New x => (set_key x [] p, ONone)
-  | Clone x y => match lookup x p with Some l => (set_key y l p, ONone) | None => (p, OPanic) end
-  | Add x v => match lookup x p with Some l => (set_key x (l ++ [v]) p, ONone) | None => (p, OPanic) end
-  | Read x => match lookup x p with Some l => (p, OVal l) | None => (p, OPanic) end
+  | HNew x => (set_key x [] p, HNone)
+  | HClone x y => match lookup x p with Some l => (set_key y l p, HNone) | None => (p, HPanic) end
+  | HAdd x v => match lookup x p with Some l => (set_key x (l ++ [v]) p, HNone) | None => (p, HPanic) end
+  | HRead x => match lookup x p with Some l => (p, HVal l) | None => (p, HPanic) end
   end.
 Definition ok_op (p:pst) (o:op) : Prop :=
   match o with
-  | New x => lookup x p = None
-  | Clone x y => lookup x p <> None /\ lookup y p = None
-  | Add x _ | Read x => lookup x p <> None
+  | HNew x => lookup x p = None
+  | HClone x y => lookup x p <> None /\ lookup y p = None
+  | HAdd x _ | HRead x => lookup x p <> None
   end.
 
 (* ---- generic assoc-list facts ---- *)
@@ -137,10 +137,10 @@ Proof. unfold set_key. apply refs_cons. Qed.
 Theorem step_refines s p o :
   Rel s p -> ok_op p o ->
   let '(s', r) := step true s o in let '(p', r') := pstep p o in
-  r = r' /\ r <> OPanic /\ Rel s' p'.
+  r = r' /\ r <> HPanic /\ Rel s' p'.
 Proof.
   intros HR Hok. destruct HR as [Hk Hv Hc Hf]. destruct o as [x|x y|x v|x]; cbn [step pstep ok_op] in *.
-  - (* New *)
+  - (* HNew *)
     split; [reflexivity|split; [discriminate|]]. constructor; cbn [env heap next].
     + unfold set_key; cbn. constructor; [apply keys_remove_notin|apply NoDup_keys_remove, Hk].
     + intros z. rewrite !lookup_set. destruct (Nat.eqb_spec x z).
@@ -155,7 +155,7 @@ Proof.
         pose proof (refs_remove_le h x (env s)). lia.
     + intros h Hle. unfold upd. destruct (Nat.eqb_spec h (next s)); [lia|]. destruct (Hf h ltac:(lia)) as [H1 H2]. split; [exact H1|].
       rewrite refs_set. destruct (Nat.eqb_spec (next s) h); [lia|]. pose proof (refs_remove_le h x (env s)). lia.
-  - (* Clone *)
+  - (* HClone *)
     destruct Hok as [Hx Hy]. pose proof (Hv x) as Hvx. destruct (lookup x p) as [l|] eqn:Hlx; [|contradiction].
     destruct Hvx as (h & c & H1 & H2 & H3). rewrite H1, H2.
     split; [reflexivity|split; [discriminate|]]. constructor; cbn [env heap next].
@@ -175,7 +175,7 @@ Proof.
     + intros h0 Hle. destruct (Hc _ _ H2) as [_ Hlt]. unfold upd. destruct (Nat.eqb_spec h0 h); [lia|].
       destruct (Hf h0 Hle) as [G1 G2]. split; [exact G1|]. rewrite refs_set. destruct (Nat.eqb_spec h h0); [lia|].
       pose proof (refs_remove_le h0 y (env s)). lia.
-  - (* Add *)
+  - (* HAdd *)
     pose proof (Hv x) as Hvx. destruct (lookup x p) as [l|] eqn:Hlx; [|contradiction].
     destruct Hvx as (h & c & H1 & H2 & H3). rewrite H1, H2. destruct (Hc _ _ H2) as [Hrefs Hlt].
     destruct (Nat.eqb_spec (cnt c) 1) as [Hone|Hshared].
@@ -218,18 +218,18 @@ Proof.
       * intros h0 Hle. unfold upd. destruct (Nat.eqb_spec h0 (next s)); [lia|]. destruct (Nat.eqb_spec h0 h); [lia|].
         destruct (Hf h0 ltac:(lia)) as [G1 G2]. split; [exact G1|]. rewrite refs_set. destruct (Nat.eqb_spec (next s) h0); [lia|].
         pose proof (refs_remove_le h0 x (env s)). lia.
-  - (* Read *)
+  - (* HRead *)
     pose proof (Hv x) as Hvx. destruct (lookup x p) as [l|] eqn:Hlx; [|contradiction].
     destruct Hvx as (h & c & H1 & H2 & H3). rewrite H1, H2. subst l.
     split; [reflexivity|split; [discriminate|]]. constructor; assumption.
 Qed.
 
 (* the pinned commit's PasswordAlgorithms::add (get_mut().unwrap()) panics on: new a; b = a.clone(); a.add(7) *)
-Definition s0 : st := {| env := []; heap := fun _ => None; next := 0 |}.
-Definition run (cow:bool) (ops:list op) : list out := snd (fold_left (fun '(s, acc) o => let '(s', r) := step cow s o in (s', acc ++ [r])) ops (s0, [])).
-Example C19_get_mut_refuted : In OPanic (run false [New 0; Clone 0 1; Add 0 7%N]).
+Definition heap0 : st := {| env := []; heap := fun _ => None; next := 0 |}.
+Definition run (cow:bool) (ops:list op) : list out := snd (fold_left (fun '(s, acc) o => let '(s', r) := step cow s o in (s', acc ++ [r])) ops (heap0, [])).
+Example C19_get_mut_refuted : In HPanic (run false [HNew 0; HClone 0 1; HAdd 0 7%N]).
 Proof. vm_compute. auto. Qed.
-Example C19_make_mut_ok : run true [New 0; Add 0 1%N; Clone 0 1; Add 0 7%N; Add 1 9%N; Read 0; Read 1]
-  = [ONone; ONone; ONone; ONone; ONone; OVal [1;7]%N; OVal [1;9]%N].
+Example C19_make_mut_ok : run true [HNew 0; HAdd 0 1%N; HClone 0 1; HAdd 0 7%N; HAdd 1 9%N; HRead 0; HRead 1]
+  = [HNone; HNone; HNone; HNone; HNone; HVal [1;7]%N; HVal [1;9]%N].
 Proof. vm_compute. reflexivity. Qed.
 Print Assumptions step_refines.
